@@ -199,9 +199,15 @@ func init() {
 		ID:        "C12",
 		NeedsRace: true,
 		Scenarios: func(c *engine.Ctx) []*engine.SScenario { return c12Scenarios(c.Thorough) },
+		Drivers:   func(c *engine.Ctx) []*engine.HDriver { return c12Drivers(c.Thorough) },
 		Run: func(c *engine.Ctx) *engine.Report {
-			rep := &engine.Report{Level: "model_checking", Coverage: map[string]any{}}
-			engine.RunSchedules(c, c12Scenarios(c.Thorough), engine.SPlan{Bounds: boundsFor(c, []int{0, 1, 2}, []int{0, 1, 2, 3}), Race: true, RaceMaxBound: 1, RaceFuncs: []string{"ApproveOrDenyWrite", "addPendingApproval", "processWriteApprovalCallbacks"}}, rep)
+			rep := &engine.Report{Level: "model_checking", Coverage: map[string]any{"exhaustive": true}}
+			for _, d := range c12Drivers(c.Thorough) {
+				// the canonical state space (pending sets, tallies, answered verdicts, connection) is finite: closure
+				st := engine.RunHistories(c, d, 64, rep)
+				engine.AddHCoverage(rep, d.Name, st, len(d.Alphabet))
+			}
+			mergeS(c, rep, c12Scenarios(c.Thorough), engine.SPlan{Bounds: boundsFor(c, []int{0, 1, 2}, []int{0, 1, 2, 3}), Race: true, RaceMaxBound: 1, RaceFuncs: []string{"ApproveOrDenyWrite", "addPendingApproval", "processWriteApprovalCallbacks"}})
 			rep.Assumptions = []string{"the approval timeout is a virtual timer whose expiry is a scheduler choice at any point (cost 1 when something else could run); verdicts are delivered from the goroutines the stack starts for the callbacks"}
 			return rep
 		},
